@@ -59,6 +59,8 @@ type topo struct {
 	Events bool
 	// Populated: the cluster's etcd root holds a few thousand unrelated keys around the TSO keys.
 	Populated bool
+	// Window: the topology ends with the directed window histories (see windowHistories).
+	Window bool
 	// PDChangeAtJoin: the PD leader resigns while the late dc joins.
 	PDChangeAtJoin bool
 }
@@ -83,7 +85,8 @@ var topologies = map[string]topo{
 	// dc names that are prefixes of each other (the per-dc etcd paths are read by prefix)
 	"3dc-prefix": {Name: "3dc-prefix", Zones: []string{"dc-1", "dc-10", "dc-100"}, Skewed: true, Events: true, Populated: true},
 	"2dc":        {Name: "2dc", Zones: []string{"dc-1", "dc-1", "dc-2"}, Skewed: true, Events: true, Populated: true},
-	"1dc":        {Name: "1dc", Zones: []string{"dc-1", "dc-1", "dc-1"}, Events: true},
+	"1dc":        {Name: "1dc", Zones: []string{"dc-1", "dc-1", "dc-1"}, Events: true, Window: true},
+	"2dc-window": {Name: "2dc-window", Zones: []string{"dc-1", "dc-1", "dc-2"}, Window: true},
 	"3dc-move":   {Name: "3dc-move", Zones: []string{"dc-1", "dc-2", "dc-3"}, Transfer: true},
 	"2dc-move":   {Name: "2dc-move", Zones: []string{"dc-1", "dc-1", "dc-2"}, Transfer: true},
 	"late-dc":    {Name: "late-dc", Zones: []string{"dc-1", "dc-1", "dc-2"}, Late: []bool{false, false, true}},
@@ -964,6 +967,173 @@ func (c *cluster) cycleMember(i int, rng *rand.Rand) {
 	c.r.Count("events_member_restart", 1)
 }
 
+// stopMember stops member i (context cancelled, then closed) without starting it again.
+func (c *cluster) stopMember(i int) bool {
+	c.mu.Lock()
+	m := c.ms[i]
+	if m == nil {
+		c.mu.Unlock()
+		return false
+	}
+	c.stopped[i] = true
+	c.ms[i] = nil
+	if cc := c.conns[i]; cc != nil {
+		cc.Close()
+		delete(c.conns, i)
+	}
+	c.mu.Unlock()
+	c.note("member m%d stops (context cancelled, then closed)", i)
+	m.Stop()
+	return true
+}
+
+// startMember starts a stopped member again on its data directory.
+func (c *cluster) startMember(i int) bool {
+	var nm *srv.Member
+	var err error
+	for k := 0; k < 4; k++ {
+		if nm, err = srv.Start(c.cfgs[i]); err == nil {
+			break
+		}
+		nm = nil
+		time.Sleep(time.Second)
+	}
+	if nm == nil {
+		c.note("member m%d did not come back: %v", i, err)
+		c.r.Count("events_member_restart_failed", 1)
+		return false
+	}
+	c.mu.Lock()
+	c.ms[i] = nm
+	delete(c.stopped, i)
+	c.mu.Unlock()
+	c.note("member m%d is back", i)
+	return true
+}
+
+// pdLeaderOffAllocators tries to put the PD leadership on a member that leads no local allocator
+// (through the etcd leadership, as the /leader/transfer API does).
+func (c *cluster) pdLeaderOffAllocators(dcs []string) {
+	gi, gm := c.serving(globalDC)
+	if gm == nil {
+		return
+	}
+	busy := map[int]bool{}
+	for _, dc := range dcs {
+		if i, _ := c.serving(dc); i >= 0 {
+			busy[i] = true
+		}
+	}
+	if !busy[gi] {
+		return
+	}
+	for i, m := range c.members() {
+		if m == nil || busy[i] {
+			continue
+		}
+		ctx, cancel := context.WithTimeout(context.Background(), 10*time.Second)
+		err := gm.Srv.GetMember().ResignEtcdLeader(ctx, gm.Srv.Name(), m.Srv.Name())
+		cancel()
+		c.note("PD leadership asked to move m%d -> m%d, which leads no allocator (err=%v)", gi, i, err)
+		deadline := time.Now().Add(20 * time.Second)
+		for time.Now().Before(deadline) {
+			if j, _ := c.serving(globalDC); j == i {
+				break
+			}
+			time.Sleep(100 * time.Millisecond)
+		}
+		return
+	}
+}
+
+// windowHistories is a directed, seed-independent family: the TSO is moved ahead of the wall clock
+// by the admin reset-ts (+10 s, then +1 h), a global request carries that time G into the local
+// allocators and is returned, and BEFORE the wall clock catches up the allocator leadership of one
+// dc changes hands in three ways (transfer to another member / its holder stops / it is reset on
+// its holder). The next leader has nothing but what is persisted. Local timestamps requested then
+// must be greater than G (and than the dc's earlier ones): the existing clauses judge it.
+func (c *cluster) windowHistories(rng *rand.Rand, dcs []string) {
+	r := c.r
+	dc := dcs[0]
+	q := &requester{c: c, id: 500, streams: map[string]pdpb.PD_TsoClient{}}
+	defer q.close()
+	if len(dcs) > 1 {
+		c.pdLeaderOffAllocators(dcs)
+		c.waitServing(dcs, 60*time.Second)
+	}
+	c.note("window histories on %s: %s", dc, c.placement())
+	k := 0
+	for _, lead := range []int64{10 * 1000, 3600 * 1000} {
+		for _, action := range []string{"transfer", "stop-holder", "reset-on-holder"} {
+			k++
+			rd := 3000 + k
+			var g0 op
+			for try := 0; try < 20; try++ {
+				if g0 = q.do(globalDC, 1, modeDirect, rd, -1); g0.Err == "" {
+					break
+				}
+				time.Sleep(200 * time.Millisecond)
+			}
+			_, gm := c.serving(globalDC)
+			if g0.Err != "" || gm == nil {
+				skipped(r, "window_history_skipped", fmt.Sprintf("%s_%d", c.t.Name, k), "no global timestamp before the reset")
+				continue
+			}
+			target := g0.Physical + lead
+			err := gm.Srv.GetHandler().ResetTS(tsoutil.GenerateTS(tsoutil.GenerateTimestamp(time.Unix(0, target*int64(time.Millisecond)), 0)))
+			c.note("window history %d (%s, +%d s): admin reset-ts err=%v", k, action, lead/1000, err)
+			// the global request that carries G into the local allocators and returns it
+			var g op
+			for try := 0; try < 20; try++ {
+				if g = q.do(globalDC, 1, modeDirect, rd, -1); g.Err == "" {
+					break
+				}
+				time.Sleep(200 * time.Millisecond)
+			}
+			q.do(dc, 1, modeDirect, rd, -1)
+			cur, cm := c.serving(dc)
+			if g.Err != "" || cm == nil {
+				skipped(r, "window_history_skipped", fmt.Sprintf("%s_%d", c.t.Name, k), "global request after the reset failed")
+				continue
+			}
+			stoppedIdx := -1
+			switch action {
+			case "transfer":
+				if c.move(dc, rng) {
+					c.waitMoved(dc, cur, 40*time.Second)
+				}
+			case "stop-holder":
+				if c.stopMember(cur) {
+					stoppedIdx = cur
+				}
+			case "reset-on-holder":
+				cm.Srv.GetTSOAllocatorManager().ResetAllocatorGroup(dc)
+				c.note("allocator of %s reset on its leader m%d", dc, cur)
+			}
+			// waitServing asks the dcs first: the first local timestamp of the next leader is taken
+			// before any new global request could write G into it again
+			if !c.waitServing(dcs, 90*time.Second) {
+				skipped(r, "window_history_skipped", fmt.Sprintf("%s_%d", c.t.Name, k), "allocators did not serve again after %s (placement %s)", action, c.placement())
+			} else {
+				q.do(dc, 1, modeDirect, rd, -1)
+				q.do(dc, 10, modeGRPC, rd, -1)
+				q.do(globalDC, 1, modeDirect, rd, -1)
+				q.do(dc, 1, modeDirect, rd, -1)
+				r.Eval(1)
+				r.Distinct(fmt.Sprintf("%s|window|+%ds|%s", c.t.Name, lead/1000, action))
+				r.Count("window_histories", 1)
+			}
+			if stoppedIdx >= 0 {
+				if !c.startMember(stoppedIdx) {
+					skipped(r, "topology_cut_short", c.t.Name, "a stopped member did not come back in window history %d", k)
+					return
+				}
+				c.waitServing(dcs, 60*time.Second)
+			}
+		}
+	}
+}
+
 // cycleCluster stops every member and starts them all again on their data directories: the next PD
 // leader and every allocator leader are freshly started processes (never a follower in this life)
 // that have nothing but the persisted state.
@@ -1334,6 +1504,9 @@ func runTopology(r *ev.Run, t topo, rng *rand.Rand, rounds int) {
 	for i, s := range shapes {
 		r.Distinct(fmt.Sprintf("%s|%d|%s", t.Name, i, s))
 	}
+	if t.Window {
+		c.windowHistories(rng, dcs)
+	}
 	if t.Skewed && len(dcs) >= 2 {
 		c.skewedRounds(rng, dcs, r.Pick(30, 60))
 	}
@@ -1347,7 +1520,7 @@ func runTopology(r *ev.Run, t topo, rng *rand.Rand, rounds int) {
 
 func main() {
 	r := ev.New("C05", "exploration")
-	r.Rule("per topology (3 real servers, local TSO on, zone labels): rounds of {4-8 requester goroutines per dc x 5-12 requests, 1-4 global requesters x 3-7 requests, one chain worker local->global->local}, counts from {1,10,1000,2^15} (every 5th round mostly 2^15), transport per requester from {HandleTSORequest on the serving member, gRPC Tso stream, forwarded gRPC Tso stream}, 4% of requests to a random member; each topology starts with a quiet sequential phase global/local with equal counts; topologies: 3 dcs x 1 member, 2 dcs 2+1, 1 dc, a dc joining later (4 variants: placement of the running allocator relative to the PD leader forced or free, allocators moved 8 s ahead of the wall clock by the admin reset-ts operation or not), allocator moves; the static 3-dc and 2-dc topologies end with 30 (thorough 60) sequential skewed-dc rounds: allocator leaders spread over different members, every local allocator pushed ahead by a different lead (1/2/4 s, rotating) through SetTSO, then local x dcs, global, local x dcs, and an aftermath of allocator reset / PD leader transfer (thorough: + member restart and a restart of the whole cluster) while the TSO is minutes ahead of the wall clock; during the concurrent rounds of the static topologies every 4th (thorough 5th) round runs one event from {PD leader transfer through the etcd leadership, PD leader resign, local allocator reset on its leader, admin reset-ts +2 s followed by an allocator reset, member stop + restart}; one static topology has dc names that are prefixes of each other and 2500 unrelated keys in its etcd root; distinct = (topology, round index, goroutine counts per dc, round seed) resp. (topology, skewed round index, lead per dc). Add-on: gated schedules of suffix assignment with a PD-leader change (old leader parked before its create-if-absent txn; release order by seed); distinct = (keys the two leaders were about to create, release order); and 15-member worlds (dc-location upper limit, prefix-related dc names, populated root) whose suffixes are assigned in two waves by two successive PD leaders")
+	r.Rule("per topology (3 real servers, local TSO on, zone labels): rounds of {4-8 requester goroutines per dc x 5-12 requests, 1-4 global requesters x 3-7 requests, one chain worker local->global->local}, counts from {1,10,1000,2^15} (every 5th round mostly 2^15), transport per requester from {HandleTSORequest on the serving member, gRPC Tso stream, forwarded gRPC Tso stream}, 4% of requests to a random member; each topology starts with a quiet sequential phase global/local with equal counts; topologies: 3 dcs x 1 member, 2 dcs 2+1, 1 dc, a dc joining later (4 variants: placement of the running allocator relative to the PD leader forced or free, allocators moved 8 s ahead of the wall clock by the admin reset-ts operation or not), allocator moves; the static 3-dc and 2-dc topologies end with 30 (thorough 60) sequential skewed-dc rounds: allocator leaders spread over different members, every local allocator pushed ahead by a different lead (1/2/4 s, rotating) through SetTSO, then local x dcs, global, local x dcs, and an aftermath of allocator reset / PD leader transfer (thorough: + member restart and a restart of the whole cluster) while the TSO is minutes ahead of the wall clock; during the concurrent rounds of the static topologies every 4th (thorough 5th) round runs one event from {PD leader transfer through the etcd leadership, PD leader resign, local allocator reset on its leader, admin reset-ts +2 s followed by an allocator reset, member stop + restart}; the 1-dc topology (and a 2-dc one with the PD leader off the allocators, thorough) ends with directed window histories: admin reset-ts +10 s / +1 h, a global request, then the dc's allocator leadership changes (transfer / holder stops / reset on the holder) before the wall clock catches up, then local, global, local requests; one static topology has dc names that are prefixes of each other and 2500 unrelated keys in its etcd root; distinct = (topology, round index, goroutine counts per dc, round seed) resp. (topology, skewed round index, lead per dc). Add-on: gated schedules of suffix assignment with a PD-leader change (old leader parked before its create-if-absent txn; release order by seed); distinct = (keys the two leaders were about to create, release order); and 15-member worlds (dc-location upper limit, prefix-related dc names, populated root) whose suffixes are assigned in two waves by two successive PD leaders")
 	r.Assume("the logical clock (lib/hist) orders call/return events of all requesters of the process; a suffix is taken as stored when the etcd watch has delivered it before the request's call tick (under-approximation)")
 	r.Assume("errors grant nothing and impose no constraint; clock failpoints are not used; all members run in one process on one wall clock")
 	rng := rand.New(rand.NewSource(r.ShardSeed()))
@@ -1355,9 +1528,9 @@ func main() {
 
 	var plan []string
 	if !r.Thorough() {
-		plan = []string{"3dc-prefix", "late-dc-remote", "late-dc-colocated"}
+		plan = []string{"3dc-prefix", "late-dc-remote", "late-dc-colocated", "1dc"}
 	} else {
-		all := []string{"3dc", "2dc", "1dc", "3dc-move", "2dc-move", "late-dc", "late-dc-remote", "late-dc-colocated", "late-3rd", "3dc-prefix", "late-3rd-pdchange", "late-dc-pdchange"}
+		all := []string{"3dc", "2dc", "1dc", "3dc-move", "2dc-move", "late-dc", "late-dc-remote", "late-dc-colocated", "late-3rd", "3dc-prefix", "late-3rd-pdchange", "late-dc-pdchange", "2dc-window"}
 		if r.Shards < 4 {
 			plan = all
 		} else {
@@ -1378,9 +1551,12 @@ func main() {
 	}
 	for _, name := range plan {
 		t := topologies[name]
-		rounds := r.Pick(24, 150)
+		rounds := r.Pick(18, 150)
 		if t.Late != nil && !r.Thorough() {
 			rounds = 8
+		}
+		if t.Window && !r.Thorough() {
+			rounds = 6 // the directed histories are what this topology is run for in the quick tier
 		}
 		runTopology(r, t, rng, rounds)
 	}
